@@ -1,27 +1,8 @@
 // Correspondence harness for the root-level part of smt::sat_core (property C13):
 // variables, clauses, reified constructors, root-level propagation.
-#include "common.h"
-#include "access.h"
-#include <memory>
+#include "enc_ops.h"
 
 using namespace smt;
-using oratio_verif::access;
-using oratio_verif::lit_str;
-
-static lit parse_lit(const std::string &s)
-{
-  if (s.size() < 2 || (s[0] != '+' && s[0] != '-'))
-    throw std::runtime_error("bad-op");
-  return lit(static_cast<var>(std::stol(s.substr(1))), s[0] == '+');
-}
-
-static std::vector<lit> rest_lits(hv::toks &t)
-{
-  std::vector<lit> ls;
-  while (!t.done())
-    ls.push_back(parse_lit(t.next()));
-  return ls;
-}
 
 int main()
 {
@@ -46,30 +27,9 @@ int main()
         std::cout << line << "\n";
         continue;
       }
-      if (!sat)
+      if (!sat || !hv::enc_exec(*sat, op, t, res))
         throw std::runtime_error("bad-op");
-      if (op == "v")
-        res = std::to_string(sat->new_var());
-      else if (op == "c")
-        res = hv::show(sat->new_clause(rest_lits(t)));
-      else if (op == "eq")
-      {
-        lit a = parse_lit(t.next()), b = parse_lit(t.next());
-        res = lit_str(sat->new_eq(a, b));
-      }
-      else if (op == "conj")
-        res = lit_str(sat->new_conj(rest_lits(t)));
-      else if (op == "disj")
-        res = lit_str(sat->new_disj(rest_lits(t)));
-      else if (op == "amo")
-        res = lit_str(sat->new_at_most_one(rest_lits(t)));
-      else if (op == "exo")
-        res = lit_str(sat->new_exct_one(rest_lits(t)));
-      else if (op == "prop")
-        res = hv::show(sat->propagate());
-      else
-        throw std::runtime_error("bad-op");
-      res += " | " + access::vals_str(*sat) + " | " + access::clauses_str(*sat);
+      res += hv::enc_state(*sat);
     }
     catch (const std::exception &e)
     {
